@@ -69,6 +69,8 @@ def entry_points(ctx: Ctx) -> List[FuncInfo]:
 
 
 def run(ctx: Ctx):
+    from .common import check_class_state
+    check_class_state(ctx, "R-C14-2", judge=True)
     M, p = ctx.model, prog(ctx)
     ctx.clauses += [
         "R-C14-1 for every public function of the package (constructors and the documented in-place API excepted, table in the rule), "
